@@ -9,7 +9,7 @@ it returns None and the caller reports the function as undecided (never as a vio
 import ast
 import copy
 
-from .core import walk_local, ntext
+from .core import acopy, walk_local, ntext
 
 
 def _is_generator(fn_node):
@@ -53,7 +53,7 @@ class _Rename(ast.NodeTransformer):
             new = self.mapping[node.id]
             if isinstance(new, str):
                 return ast.copy_location(ast.Name(id=new, ctx=node.ctx), node)
-            return copy.deepcopy(new)
+            return acopy(new)
         return node
 
 
@@ -81,8 +81,8 @@ def _comp_parts(e):
             if t != u and u in outer_names:
                 break  # the inner variable would capture an outer name
             ren = _Rename({t: it.elt})
-            elt = ren.visit(copy.deepcopy(elt))
-            ifs = list(ig.ifs) + [ren.visit(copy.deepcopy(c)) for c in ifs]
+            elt = ren.visit(acopy(elt))
+            ifs = list(ig.ifs) + [ren.visit(acopy(c)) for c in ifs]
             target, it = ig.target, ig.iter
         return elt, target, it, ifs
     return None
@@ -140,12 +140,12 @@ def split_lazy_rebinding(P, f, body):
 
         def build(k, cur):
             if k == len(rebinds):
-                u = copy.deepcopy(use)
+                u = acopy(use)
                 u.value = _Rename({X: cur}).visit(u.value)
                 return [u]
             rb = rebinds[k]
-            nxt = _Rename({X: cur}).visit(copy.deepcopy(rb.body[0].value))
-            node = ast.If(test=copy.deepcopy(rb.test), body=build(k + 1, nxt), orelse=build(k + 1, cur))
+            nxt = _Rename({X: cur}).visit(acopy(rb.body[0].value))
+            node = ast.If(test=acopy(rb.test), body=build(k + 1, nxt), orelse=build(k + 1, cur))
             ast.copy_location(node, rb)
             return [node]
 
@@ -164,7 +164,7 @@ def fuse_generators(P, f):
     written in place or bound once to a local that is used only as such an iterable."""
     if f.is_lambda:
         return None
-    body = copy.deepcopy(f.node.body)
+    body = acopy(f.node.body)
     body, _ = split_lazy_rebinding(P, f, body)
     fake = ast.Module(body=body, type_ignores=[])
     # locals bound once to a generator call
@@ -203,7 +203,7 @@ def fuse_generators(P, f):
                 return None, None
             new = "_g%s_%s" % (tag, p_)
             mapping[p_] = new
-            binds.append(ast.Assign(targets=[ast.Name(id=new, ctx=ast.Store())], value=copy.deepcopy(g.defaults[p_]), lineno=call.lineno, col_offset=0))
+            binds.append(ast.Assign(targets=[ast.Name(id=new, ctx=ast.Store())], value=acopy(g.defaults[p_]), lineno=call.lineno, col_offset=0))
         for n in walk_local(g.node):
             if isinstance(n, ast.Name) and isinstance(n.ctx, ast.Store) and n.id not in mapping:
                 mapping[n.id] = "_g%s_%s" % (tag, n.id)
@@ -211,7 +211,7 @@ def fuse_generators(P, f):
 
     def loop_for(g, mapping, elt, target, ifs, resname):
         """The generator's body with each `yield X` replaced by `target = X; if ifs: resname.append(elt)`."""
-        gbody = copy.deepcopy([s for s in g.node.body if not (isinstance(s, ast.Expr) and isinstance(s.value, ast.Constant))])
+        gbody = acopy([s for s in g.node.body if not (isinstance(s, ast.Expr) and isinstance(s.value, ast.Constant))])
         ok = [True]
 
         class Y(ast.NodeTransformer):
@@ -224,11 +224,11 @@ def fuse_generators(P, f):
             def visit_Expr(self, node):
                 if isinstance(node.value, ast.Yield):
                     val = node.value.value if node.value.value is not None else ast.Constant(value=None)
-                    asg = ast.Assign(targets=[copy.deepcopy(target)], value=val, lineno=node.lineno, col_offset=0)
-                    app = ast.Expr(value=ast.Call(func=ast.Attribute(value=ast.Name(id=resname, ctx=ast.Load()), attr="append", ctx=ast.Load()), args=[copy.deepcopy(elt)], keywords=[]), lineno=node.lineno, col_offset=0)
+                    asg = ast.Assign(targets=[acopy(target)], value=val, lineno=node.lineno, col_offset=0)
+                    app = ast.Expr(value=ast.Call(func=ast.Attribute(value=ast.Name(id=resname, ctx=ast.Load()), attr="append", ctx=ast.Load()), args=[acopy(elt)], keywords=[]), lineno=node.lineno, col_offset=0)
                     if ifs:
-                        test = ifs[0] if len(ifs) == 1 else ast.BoolOp(op=ast.And(), values=[copy.deepcopy(x) for x in ifs])
-                        return [asg, ast.If(test=copy.deepcopy(test), body=[app], orelse=[], lineno=node.lineno, col_offset=0)]
+                        test = ifs[0] if len(ifs) == 1 else ast.BoolOp(op=ast.And(), values=[acopy(x) for x in ifs])
+                        return [asg, ast.If(test=acopy(test), body=[app], orelse=[], lineno=node.lineno, col_offset=0)]
                     return [asg, app]
                 return self.generic_visit(node)
 
@@ -333,8 +333,8 @@ def _is_true(e):
 
 def _negate(e):
     if isinstance(e, ast.UnaryOp) and isinstance(e.op, ast.Not):
-        return copy.deepcopy(e.operand)
-    return ast.UnaryOp(op=ast.Not(), operand=copy.deepcopy(e))
+        return acopy(e.operand)
+    return ast.UnaryOp(op=ast.Not(), operand=acopy(e))
 
 
 def rotate_while_true(body):
@@ -348,14 +348,14 @@ def rotate_while_true(body):
 
     with every `continue` of that loop in B replaced by `P; continue`.  Returns a rewritten copy of `body` and the number
     of loops rotated (0: nothing to do)."""
-    body = copy.deepcopy(body)
+    body = acopy(body)
     count = [0]
 
     def own_continues(stmts, P):
         out = []
         for s in stmts:
             if isinstance(s, ast.Continue):
-                out.extend(copy.deepcopy(P))
+                out.extend(acopy(P))
                 out.append(s)
                 continue
             if isinstance(s, (ast.While, ast.For, ast.FunctionDef, ast.AsyncFunctionDef, ast.ClassDef)):
@@ -392,7 +392,7 @@ def rotate_while_true(body):
                     B = s.body[j:]
                     tests = [_negate(c) for c in conds]
                     test = tests[0] if len(tests) == 1 else ast.BoolOp(op=ast.And(), values=tests)
-                    newbody = own_continues(B, P) + copy.deepcopy(P)
+                    newbody = own_continues(B, P) + acopy(P)
                     if not newbody:
                         newbody = [ast.Pass()]
                     w = ast.While(test=test, body=newbody, orelse=[])
@@ -438,7 +438,7 @@ class _Beta(ast.NodeTransformer):
         if isinstance(node.func, ast.Name) and node.func.id in self.lams:
             lam = self.lams[node.func.id]
             m = {p.arg: a for p, a in zip(lam.args.args, node.args)}
-            return ast.copy_location(_Rename(m).visit(copy.deepcopy(lam.body)), node)
+            return ast.copy_location(_Rename(m).visit(acopy(lam.body)), node)
         return node
 
 
@@ -449,7 +449,7 @@ def inline_helpers(P, f, depth=2, only_private=True):
     function of f's module; it is not a generator, not recursive, takes only positional / keyword arguments matching its
     parameters, and returns only at its very end (or never).  Returns (new_body, n_inlined); the body is a deep copy with
     `_parent` links."""
-    body = copy.deepcopy(f.node.body)
+    body = acopy(f.node.body)
     count = [0]
     serial = [0]
 
@@ -516,7 +516,7 @@ def inline_helpers(P, f, depth=2, only_private=True):
             if p_ in given:
                 v = given[p_]
             elif p_ in g.defaults:
-                v = copy.deepcopy(g.defaults[p_])
+                v = acopy(g.defaults[p_])
             else:
                 return None
             assigned_in_callee = any(isinstance(n, ast.Name) and n.id == p_ and isinstance(n.ctx, ast.Store) for n in walk_local(g.node))
@@ -528,7 +528,7 @@ def inline_helpers(P, f, depth=2, only_private=True):
             if isinstance(v, ast.Lambda) and not assigned_in_callee and _only_called(g.node, p_, v):
                 lam_subst[new] = v  # a lambda passed for a parameter that is only ever called: beta-reduce the calls
                 continue
-            pre.append(ast.Assign(targets=[ast.Name(id=new, ctx=ast.Store())], value=copy.deepcopy(v), lineno=call.lineno, col_offset=0))
+            pre.append(ast.Assign(targets=[ast.Name(id=new, ctx=ast.Store())], value=acopy(v), lineno=call.lineno, col_offset=0))
         # a helper that ends in `return <its own local>` assigned to a plain name: the local *is* that name
         last = [s_ for s_ in g.node.body if not (isinstance(s_, ast.Expr) and isinstance(s_.value, ast.Constant))]
         last = last[-1] if last else None
@@ -537,7 +537,7 @@ def inline_helpers(P, f, depth=2, only_private=True):
         for n in walk_local(g.node):
             if isinstance(n, ast.Name) and isinstance(n.ctx, ast.Store) and n.id not in mapping:
                 mapping[n.id] = "_h%d_%s" % (tag, n.id)
-        stmts = copy.deepcopy([s for s in g.node.body if not (isinstance(s, ast.Expr) and isinstance(s.value, ast.Constant))])
+        stmts = acopy([s for s in g.node.body if not (isinstance(s, ast.Expr) and isinstance(s.value, ast.Constant))])
         ren = _Rename(mapping)
         out = list(pre)
         for s in stmts:
@@ -624,12 +624,12 @@ def desugar_match(stmt):
         subj = ast.Name(id=name, ctx=ast.Load())
 
     def S():
-        return copy.deepcopy(subj) if not isinstance(subj, ast.Name) else ast.Name(id=subj.id, ctx=ast.Load())
+        return acopy(subj) if not isinstance(subj, ast.Name) else ast.Name(id=subj.id, ctx=ast.Load())
 
     def pat(p, target):
         """(condition AST or True, [binding statements]) for pattern p matched against expression-producer target()."""
         if isinstance(p, ast.MatchValue):
-            return ast.Compare(left=target(), ops=[ast.Eq()], comparators=[copy.deepcopy(p.value)]), []
+            return ast.Compare(left=target(), ops=[ast.Eq()], comparators=[acopy(p.value)]), []
         if isinstance(p, ast.MatchSingleton):
             return ast.Compare(left=target(), ops=[ast.Is()], comparators=[ast.Constant(value=p.value)]), []
         if isinstance(p, ast.MatchOr):
@@ -650,7 +650,7 @@ def desugar_match(stmt):
             c, b = pat(p.pattern, target)
             return c, b + [ast.Assign(targets=[ast.Name(id=p.name, ctx=ast.Store())], value=target(), lineno=stmt.lineno, col_offset=0)]
         if isinstance(p, ast.MatchClass) and not p.patterns and not p.kwd_patterns:
-            return ast.Call(func=ast.Name(id="isinstance", ctx=ast.Load()), args=[target(), copy.deepcopy(p.cls)], keywords=[]), []
+            return ast.Call(func=ast.Name(id="isinstance", ctx=ast.Load()), args=[target(), acopy(p.cls)], keywords=[]), []
         if isinstance(p, ast.MatchSequence) and not any(isinstance(q, ast.MatchStar) for q in p.patterns):
             n = len(p.patterns)
             conds = [
@@ -674,7 +674,7 @@ def desugar_match(stmt):
             if case.guard is not None:
                 if binds:
                     raise ValueError("guard on a binding pattern")
-                c = copy.deepcopy(case.guard) if c is True else ast.BoolOp(op=ast.And(), values=[c, copy.deepcopy(case.guard)])
+                c = acopy(case.guard) if c is True else ast.BoolOp(op=ast.And(), values=[c, acopy(case.guard)])
             body = binds + list(case.body)
             if c is True:
                 tail = body
@@ -739,10 +739,10 @@ def desugar_itertools(body):
                 start = src.keywords[0].value
                 step = src.args[0].args[0]
                 new = [
-                    ast.Assign(targets=[ast.Name(id=var, ctx=ast.Store())], value=copy.deepcopy(start)),
-                    ast.While(test=copy.deepcopy(lam.body), body=[
+                    ast.Assign(targets=[ast.Name(id=var, ctx=ast.Store())], value=acopy(start)),
+                    ast.While(test=acopy(lam.body), body=[
                         ast.Expr(value=ast.Yield(value=ast.Name(id=var, ctx=ast.Load()))),
-                        ast.AugAssign(target=ast.Name(id=var, ctx=ast.Store()), op=ast.Add(), value=copy.deepcopy(step)),
+                        ast.AugAssign(target=ast.Name(id=var, ctx=ast.Store()), op=ast.Add(), value=acopy(step)),
                     ], orelse=[]),
                 ]
                 for x in new:
